@@ -529,6 +529,7 @@ impl Database {
             // Persist catalog with system tables
             drop(file_manager_guard);
             self.save_catalog()?;
+            self.save_meta()?;
         }
 
         Ok(())
